@@ -65,6 +65,9 @@ def new (n : Nat) : Bucket := ⟨List.replicate n []⟩
 
 def bucketOf (b : Bucket) (h : Nat → Int → Nat) (k : Int) : Nat := h b.buckets.length k
 
+/-- `Len()`: sum of the bucket sizes -/
+def len (b : Bucket) : Nat := b.buckets.foldl (fun n m => n + m.size) 0
+
 inductive Op where
   | get (k : Int) | set (k v : Int) | del (k : Int) | len | clear
   | getOrSet (k v : Int) | getAndDel (k : Int)        -- `MutexBucketItem` methods through `GetBucket(k)`
@@ -81,7 +84,7 @@ def step (h : Nat → Int → Nat) (b : Bucket) : Op → Bucket × Out
   | .del k => match b.buckets[b.bucketOf h k]? with
       | none => (b, .panic)
       | some m => (⟨b.buckets.set (b.bucketOf h k) (m.del k)⟩, .unit)
-  | .len => (b, .int (b.buckets.foldl (fun n m => n + m.size) 0))
+  | .len => (b, .int b.len)
   | .clear => (⟨b.buckets.map (fun _ => [])⟩, .unit)
   | .getOrSet k v => match b.buckets[b.bucketOf h k]? with
       | none => (b, .panic)
